@@ -17,6 +17,7 @@ Deciding method
           on the boundary pool to find a failing (operator, type, operands)."""
 import json
 import os
+import re
 
 import c03diff as D
 import c03progs as P
@@ -163,6 +164,20 @@ def run(ctx):
         totals["handwritten"] = stats
         report(ctx, recs, strict=True)
         mark("validate_handwritten")
+        # declarator form of module-scope private arrays: HLSL (like C) puts the dimensions after the name; the writer does
+        # so for groupshared variables, locals, parameters and constants (getTypeNameWithArraySuffix, "use array suffix for
+        # correct declaration") but not for `static` private variables.  The reader accepts the form (as the array it
+        # evidently stands for) so that such programs are still validated; the ill-formed declarator is reported here.
+        pr = nagarun.parallel_batches(tools["hlsldrive"], "compile", [{"id": 0, "src": PRIVATE_ARRAY_PROBE, "want": [], "opts": D.OPTION_SETS["default51"]}],
+                                      per_job_timeout=30.0, chunk=1).get(0) or {}
+        m = re.search(r"^static\s+\w+((?:\[\d+\])+)\s+(\w+)\s*=", pr.get("hlsl") or "", re.M)
+        ctx.cov["private_array_declarator"] = m.group(0) if m else "dimensions after the name"
+        if m:
+            ctx.violation("HLSL: a module-scope private array is declared as `%s ...`: the dimensions precede the name, which is not an HLSL "
+                          "declarator (DXC: 'brackets are not allowed here; to declare an array, place the brackets after the name'); "
+                          "every other array declaration the writer emits puts them after the name" % m.group(0).rstrip("= "),
+                          files={"input.wgsl": PRIVATE_ARRAY_PROBE, "emitted.hlsl": pr.get("hlsl") or ""},
+                          key="hlsl:private-array-declarator")
         qstats, qrecs = D.validate(tools, irrun, hlslrun, P.QUESTIONS, ["default51"], ctx.scale(6, 24), rng.fork("questions"))
         ctx.cov["open_questions"] = {"runs": qstats["runs"], "agree": qstats["agree"],
                                      "disagree": sorted({(x["program"], x["detail"][:100]) for x in qrecs
@@ -243,6 +258,11 @@ def run(ctx):
     elif broken:
         ctx.cov["broken_tie"] = broken
 
+
+PRIVATE_ARRAY_PROBE = """@group(0) @binding(0) var<storage, read_write> o: array<u32, 4>;
+var<private> p: array<u32, 2>;
+@compute @workgroup_size(1) fn main() { p[1] = 3u; o[0] = p[0] + p[1]; }
+"""
 
 GEN_OPTS = {"avoid": ("countLeadingZeros", "countTrailingZeros", "sign:f32")}
 
